@@ -703,3 +703,19 @@ def eval_api_step(mod, api, K):
     for s in hooks.backs:
         res.append(outcome(C, hooks, s, 'cont', None, phi))
     return res, hooks.applied, sorted(set(hooks.post_writes))
+
+
+def expecting_field_constant(mod):
+    """the level-flags value that means "inside an object, a field name comes next": what a freshly entered object level gets
+    (read off the extracted step for an OBJECT_BEGIN token, so that the checks do not carry the encoding)"""
+    tc = token_classes()
+    vals = set()
+    for m in mode_constants(mod):
+        res, _ = eval_step(mod, {'tok': tc['object_begin'], 'flags': 0, 'dz': True, 'mode': m, 'lookup': False})
+        for o in res:
+            if o['err'] == 0 and o['cursor'] == 'adv' and o['ddepth'] == 1:
+                for ((lvl, field), desc) in o['eff']:
+                    if field == 'flags' and lvl == o['cs_level'] and desc[0] == 'c':
+                        vals.add(desc[1])
+    need(len(vals) == 1, 'stepm: the flags value of a freshly entered object level is not a single constant (%r)' % sorted(vals))
+    return vals.pop()
